@@ -277,8 +277,7 @@ _INF = float("inf")
 
 
 class SReal:
-    __slots__ = ("e",)
-
+    
     def __init__(self, e):
         if not isinstance(e, z3.ExprRef):
             e = to_z3(e)
@@ -542,6 +541,29 @@ def uf_decl(name: str) -> z3.FuncDeclRef:
     if name not in _UF:
         _UF[name] = z3.Function(name, z3.RealSort(), z3.RealSort())
     return _UF[name]
+
+
+class SFloat(SReal, float):
+    """A symbolic real that passes ``isinstance(x, float)``.  Its C-level double is NaN, so any library routine
+    that silently reads the raw double (instead of calling a dunder method) poisons the result visibly."""
+
+    def __new__(cls, e):
+        return float.__new__(cls, float("nan"))
+
+    def __init__(self, e):
+        SReal.__init__(self, e)
+
+    def _bin(self, o, f, swap=False):
+        if isinstance(o, numpy.ndarray):
+            # numpy would read the raw C double of a float subclass; broadcast elementwise instead (what numpy
+            # itself does for a non-float scalar object)
+            out = numpy.empty(o.shape, dtype=object)
+            for idx in numpy.ndindex(o.shape):
+                out[idx] = SReal._bin(self, o[idx], f, swap)
+            return out
+        return SReal._bin(self, o, f, swap)
+
+    __hash__ = None  # type: ignore[assignment]
 
 
 # ----------------------------------------------------------------------------
